@@ -11,5 +11,6 @@ for pid in claimed:
     if pr.get("props_file"):
         targets.append(pr["props_file"][:-2] + ".vo")
     targets += [t[:-2] + ".vo" for t in pr.get("props_extra", []) + pr.get("extra_coq", [])]
+    targets += check.extract_deps(pr)
 rc = subprocess.call("make -j16 " + " ".join(sorted(set(targets))), shell=True, cwd=check.COQ)
 sys.exit(rc)
